@@ -29,9 +29,11 @@ void h_crc16_octet(void)
 
 void h_ufw_crc16_arc(void)
 {
-  IN(uint16_t, in_crc) IN(size_t, in_n)
-  ASSUME(in_n <= CRC_NMAX);
-  IN_MEM(in_buf, in_n)
+  IN(uint16_t, in_crc) IN(size_t, in_n) IN(size_t, in_off)
+  ASSUME(in_n <= CRC_NMAX && in_off <= 3);
+  /* the octets start at any alignment: the block's end is exact */
+  IN_MEM(in_blk, in_n + in_off)
+  unsigned char *in_buf = in_blk + in_off;
   CRC_TRACE(T, in_crc, in_buf, in_n)
   g_crcT = T;
   ufw_crc16_arc(in_crc, in_buf, in_n);
@@ -40,9 +42,10 @@ void h_ufw_crc16_arc(void)
 
 void h_ufw_buffer_crc16_arc(void)
 {
-  IN(size_t, in_n)
-  ASSUME(in_n <= CRC_NMAX);
-  IN_MEM(in_buf, in_n)
+  IN(size_t, in_n) IN(size_t, in_off)
+  ASSUME(in_n <= CRC_NMAX && in_off <= 3);
+  IN_MEM(in_blk, in_n + in_off)
+  unsigned char *in_buf = in_blk + in_off;
   CRC_TRACE(T, 0, in_buf, in_n)
   g_crcT = T;
   ufw_buffer_crc16_arc(in_buf, in_n);
